@@ -268,7 +268,7 @@ pub open spec fn filter_not_nan<A: MaybeNan>(s: Seq<A>) -> Seq<A::NotNan>
 // some order (a trait method cannot state this here: its contract would refer to a function over the trait itself)
 #[verifier::external_body]
 pub fn verif_remove_nan_mut<A: MaybeNan>(lane: Lane<A>) -> (r: ArrL<A::NotNan>)
-    ensures r.dims().len() == 1, r.wf(0), r.dims()[0] == filter_not_nan(lane@).len(), r.count() == filter_not_nan(lane@).len(), perm(r.lanes(0)[0], filter_not_nan(lane@))
+    ensures is_compaction::<A>(r, lane@), r.count() == filter_not_nan(lane@).len()
 { unimplemented!() }
 impl<A> ArrL<A> {
     #[verifier::external_body]
@@ -296,4 +296,44 @@ pub open spec fn skipq_entry<A: MaybeNan, I: Interpolate<A::NotNan>>(lane: Seq<A
     let f = filter_not_nan(lane);
     if f.len() == 0 { out.is_nan_spec() }
     else { !out.is_nan_spec() && exists|arr: Seq<A::NotNan>| #[trigger] perm(arr, f) && lane_entry::<A::NotNan, I>(arr, q, f.len() as usize, out.not_nan_spec()) }
+}
+
+// ---- R19c: `map_axis_mut` as a loop (used where the closure calls a captured FnMut) ----------------------------------
+#[verifier::external_body]
+pub fn verif_lane_order1<A>(x: &ArrL<A>, ax: Axis) -> (r: Vec<usize>)
+    requires ax.0 < x.dims().len()
+    ensures
+        r@.len() == x.lanes(ax.0 as int).len(),
+        forall|k: int| 0 <= k < r@.len() ==> #[trigger] r@[k] < r@.len(),
+        forall|j: int| 0 <= j < r@.len() ==> #[trigger] visits(r@, j),
+        forall|k1: int, k2: int| 0 <= k1 < k2 < r@.len() ==> r@[k1] != r@[k2],
+{ unimplemented!() }
+// the result array under construction: one slot per lane
+#[verifier::external_body]
+#[verifier::reject_recursive_types(B)]
+pub struct LaneResults<B> { _b: core::marker::PhantomData<B> }
+impl<B> LaneResults<B> {
+    pub uninterp spec fn slots(&self) -> Seq<Option<B>>;
+    #[verifier::external_body]
+    pub fn verif_put(&mut self, j: usize, v: B)
+        requires j < old(self).slots().len()
+        ensures final(self).slots() == old(self).slots().update(j as int, Some(v))
+    { unimplemented!() }
+    #[verifier::external_body]
+    pub fn verif_finish(self) -> (r: ArrS<B>)
+        requires forall|j: int| 0 <= j < self.slots().len() ==> (#[trigger] self.slots()[j]) is Some
+        ensures r.elems().len() == self.slots().len(), forall|j: int| 0 <= j < r.elems().len() ==> self.slots()[j] == Some(#[trigger] r.elems()[j])
+    { unimplemented!() }
+}
+#[verifier::external_body]
+pub fn verif_lane_results<A, B>(x: &ArrL<A>, ax: Axis) -> (r: LaneResults<B>)
+    requires ax.0 < x.dims().len()
+    ensures r.slots().len() == x.lanes(ax.0 as int).len(), forall|j: int| 0 <= j < r.slots().len() ==> (#[trigger] r.slots()[j]) is None
+{ unimplemented!() }
+// the compacted lane handed to the mapping: a 1-D view of exactly the not-missing values of the lane, in some order
+pub open spec fn is_compaction<A: MaybeNan>(l: ArrL<A::NotNan>, lane: Seq<A>) -> bool {
+    l.dims().len() == 1 && l.wf(0) && l.dims()[0] == filter_not_nan(lane).len() && perm(l.lanes(0)[0], filter_not_nan(lane))
+}
+pub open spec fn mapped_lane<A: MaybeNan, B, F: FnMut(ArrL<A::NotNan>) -> B>(f: F, lane: Seq<A>, out: B) -> bool {
+    exists|l: ArrL<A::NotNan>| #[trigger] is_compaction::<A>(l, lane) && call_ensures(f, (l,), out)
 }
